@@ -89,3 +89,73 @@ Definition ex_frame0 : dframe :=
           (RResult (ResRows ex_rows)).
 Definition ex_frame : dframe :=
   mkFrame (mkHeader 132 10 (-3)%Z 8 (lenN (enc_body ex_ft ex_frame0))) (d_ext ex_frame0) (d_resp ex_frame0).
+
+Example C08_ex_wf : wf_frame (fun b => b) ex_ft true false ex_frame.
+Proof.
+  unfold wf_frame, ex_frame, ex_frame0. cbn [d_header d_ext d_resp h_version h_flags h_stream h_opcode h_length].
+  assert (WB : forall l, bytes_okb l = true -> bytes_ok l) by (intros; apply bytes_okb_ok; assumption).
+  split; [reflexivity|]. split; [reflexivity|]. split; [lia|]. split; [reflexivity|].
+  split; [vm_compute; reflexivity|]. split; [vm_compute; reflexivity|]. split; [discriminate|].
+  split.
+  { unfold wf_extensions. cbn [x_trace x_warnings x_payload].
+    change (bit 10 2) with true. change (bit 10 8) with true. change (bit 10 4) with false. cbv iota.
+    split; [eexists; split; [reflexivity|split; [apply WB; reflexivity|reflexivity]]|].
+    split; [|reflexivity]. split; [reflexivity|]. repeat constructor; try (apply WB; reflexivity). }
+  unfold wf_response, wf_result, wf_rows, ex_rows.
+  cbn [rr_hdr rr_meta_id rr_cols rr_rows_count rr_rows rh_col_count rh_global rh_no_metadata rh_metadata_changed rh_paging].
+  split; [reflexivity|]. split; [reflexivity|]. split; [split; [apply WB|]; reflexivity|].
+  split; [intros _; split; reflexivity|]. split; [split; [reflexivity|split; [apply WB|]; reflexivity]|].
+  split.
+  { split; [reflexivity|]. split.
+    - repeat constructor; try (apply WB; reflexivity); try reflexivity; try (vm_compute; discriminate).
+    - intros _. split; [discriminate|]. repeat constructor. }
+  split; [reflexivity|].
+  repeat constructor; try (apply WB; reflexivity); try reflexivity.
+Qed.
+
+Example C08_ex_roundtrip :
+  fst (decode (fun b => Some b) ex_ft true false (encode_frame (fun b => b) ex_ft ex_frame ++ [132; 0])) = ODone ex_frame
+  /\ lenN (encode_frame (fun b => b) ex_ft ex_frame) = 125.
+Proof. split; vm_compute; reflexivity. Qed.
+
+(* every one of the 125 strict prefixes is rejected, with the expected classes at the two ends *)
+Example C08_ex_truncation :
+  forallb (fun k => is_rejected (fst (decode (fun b => Some b) ex_ft true false
+                                             (firstn k (encode_frame (fun b => b) ex_ft ex_frame)))))
+          (seq 0 125) = true
+  /\ fst (decode (fun b => Some b) ex_ft true false (firstn 8 (encode_frame (fun b => b) ex_ft ex_frame)))
+     = OErr StHeader EHeaderIo
+  /\ fst (decode (fun b => Some b) ex_ft true false (firstn 124 (encode_frame (fun b => b) ex_ft ex_frame)))
+     = OErr StHeader EConnectionClosed.
+Proof. repeat split; vm_compute; reflexivity. Qed.
+
+(* the constant of C08_alloc is not slack: 129 nested user-defined types, each announcing 65535
+   fields (a 1.3 KB frame), make the decoder reserve 473 MB before it fails; the nesting limit is
+   reached exactly by 129 nested lists, and 130 are refused *)
+Fixpoint ex_nest (k : nat) (pre : bytes) (inner : bytes) : bytes :=
+  match k with O => inner | S k' => pre ++ ex_nest k' pre inner end.
+Definition ex_rows_with_type (ty : bytes) : bytes :=
+  let body := enc_int 2 ++ enc_int 1 ++ enc_int 1 ++ enc_string [107] ++ enc_string [116] ++ enc_string [99]
+              ++ ty ++ enc_int 0 in
+  enc_header (mkHeader 132 0 1 8 (lenN body)) ++ body.
+Definition ex_udt_bomb : bytes :=
+  ex_rows_with_type (ex_nest 129 (enc_short 48 ++ enc_short 0 ++ enc_short 0 ++ enc_short 65535 ++ enc_short 0) []).
+Example C08_ex_alloc_constant :
+  lenN ex_udt_bomb = 1324 /\
+  c_alloc (snd (decode (fun _ => None) ex_ft true false ex_udt_bomb)) = 473426259 /\
+  is_rejected (fst (decode (fun _ => None) ex_ft true false ex_udt_bomb)) = true.
+Proof. repeat split; vm_compute; reflexivity. Qed.
+Example C08_ex_depth :
+  c_depth (snd (decode (fun _ => None) ex_ft true false (ex_rows_with_type (ex_nest 128 (enc_short 32) (enc_short 9))))) = 129
+  /\ is_rejected (fst (decode (fun _ => None) ex_ft true false (ex_rows_with_type (ex_nest 128 (enc_short 32) (enc_short 9))))) = false
+  /\ fst (decode (fun _ => None) ex_ft true false (ex_rows_with_type (ex_nest 129 (enc_short 32) (enc_short 9))))
+     = OErr StBody ETypeNestingTooDeep.
+Proof. repeat split; vm_compute; reflexivity. Qed.
+
+Print Assumptions C08_roundtrip.
+Print Assumptions C08_truncation.
+Print Assumptions C08_truncation_body.
+Print Assumptions C08_alloc.
+Print Assumptions C08_alloc_plain.
+Print Assumptions C08_depth.
+Print Assumptions C08_fuel_enough_partial.
